@@ -43,6 +43,16 @@ type c05Case struct {
 	Decoy      bool     `json:"decoy"`
 	AllowEmpty bool     `json:"allowEmpty"`
 	DecoyWire  *c05Wire `json:"decoywire"`
+	Defaults   bool     `json:"defaults"`
+	Other      bool     `json:"other"`
+}
+
+// c05PathEscape percent-encodes a path segment as a client does: everything url.PathEscape encodes except the
+// sub-delimiters ';' and ',' (legal in a segment, and the structure of the path styles)
+func c05PathEscape(seg string) string {
+	e := url.PathEscape(seg)
+	e = strings.ReplaceAll(e, "%3B", ";")
+	return strings.ReplaceAll(e, "%2C", ",")
 }
 
 func errClass(err error) string {
@@ -91,6 +101,9 @@ func c05Run(c *Case) []any {
 			path = "/t/{p}/{pq}"
 		}
 	}
+	if tc.Other {
+		params = append(params, map[string]any{"name": "z", "in": "query", "schema": map[string]any{"type": "integer"}})
+	}
 	doc := map[string]any{"openapi": "3.0.3", "info": map[string]any{"title": "t", "version": "1"},
 		"paths": map[string]any{path: map[string]any{"get": map[string]any{
 			"parameters": params,
@@ -121,7 +134,7 @@ func c05Run(c *Case) []any {
 		}
 		switch w.Kind {
 		case "path":
-			target += "/" + w.Seg
+			target += "/" + c05PathEscape(w.Seg)
 		case "query":
 			for _, p := range w.Pairs {
 				q = append(q, url.QueryEscape(p.K)+"="+url.QueryEscape(p.V))
@@ -139,6 +152,9 @@ func c05Run(c *Case) []any {
 	}
 	if tc.Decoy {
 		place(tc.DecoyWire, "pq")
+	}
+	if tc.Other {
+		q = append(q, "z=1")
 	}
 	if len(q) > 0 {
 		target += "?" + strings.Join(q, "&")
@@ -158,7 +174,7 @@ func c05Run(c *Case) []any {
 	}
 	line["route"] = "ok"
 	input := &openapi3filter.RequestValidationInput{Request: req, PathParams: pathParams, Route: route,
-		Options: &openapi3filter.Options{SkipSettingDefaults: true}}
+		Options: &openapi3filter.Options{SkipSettingDefaults: !tc.Defaults}}
 	param := route.Operation.Parameters.GetByInAndName(tc.Cell.In, "p")
 	dec := map[string]any{}
 	var val any
